@@ -16,7 +16,8 @@ FA_SYMS = {"ab": ["a", "b"], "odd": ["a b", "α"], "num": [1, "1"]}
 CFG_SPELL = {"plain": (["S", "A", "B"], ["a", "b"]), "lowervar": (["S", "x", "y1"], ["a", "b"]),
              "capter": (["S", "A", "B"], ["Xa", "B1"]), "both": (["S", "x", "y1"], ["Xa", "B1"]),
              "same": (["S", "A", "B"], ["A", "b"]), "samelower": (["S", "a", "y1"], ["a", "b"]),
-             "startlower": (["a", "S", "y1"], ["a", "b"]), "nonascii": (["S", "A", "B"], ["Ölaf", "Ωb"])}
+             "startlower": (["a", "S", "y1"], ["a", "b"]), "nonascii": (["S", "A", "B"], ["Ölaf", "Ωb"]),
+             "epsspelt": (["S", "A", "B"], ["$", "ε"])}     # terminals spelt like the reader's epsilon markers
 
 
 def ebnf_bodies():
